@@ -19,7 +19,7 @@ Cases1 == { Case("strlen", <<s>>, Length(s)), Case("is_empty", <<s>>, IsEmpty(s)
 CasesT == UNION { { Case("indexof", <<s, t>>, IF t = <<>> THEN AnyR ELSE IndexOf(s, t)), Case("last_indexof", <<s, t>>, IF t = <<>> THEN AnyR ELSE LastIndexOf(s, t)),
                     Case("contains", <<s, t>>, Contains(s, t)), Case("starts_with", <<s, t>>, StartsWith(s, t)), Case("ends_with", <<s, t>>, EndsWith(s, t)),
                     Case("equals", <<s, t>>, Equals(s, t)), Case("concat", <<s, t, s>>, Val(s \o t \o s)),
-                    Case("replace", <<s, t, <<120, 121>>>>, IF t = <<>> THEN AnyR ELSE Val(Replace(s, t, <<120, 121>>))),
+                    Case("replace", <<s, t, <<120, 121>>>>, IF t = <<>> THEN Val(Interleave(s, <<120, 121>>)) ELSE Val(Replace(s, t, <<120, 121>>))),
                     Case("split", <<s, t>>, IF t = <<>> THEN AnyR ELSE [k |-> "list", v |-> Split(s, t, <<>>)]) } : t \in Needles }
 CasesI == { [cmd |-> "substring", args |-> <<s>>, ints |-> <<a>>, exp |-> Substring1(s, a)] : a \in Idx }
    \cup { [cmd |-> "substring", args |-> <<s>>, ints |-> <<a, b>>, exp |-> Substring2(s, a, b)] : a \in Idx, b \in Idx }
